@@ -514,11 +514,15 @@ func (t *thread) SetStack(data [][]byte) {
 
 // subScript returns the script since the last OP_CODESEPARATOR.
 func (t *thread) subScript() ParsedScript {
+	script := t.scripts[t.scriptIdx]
 	skip := 0
-	if t.lastCodeSep > 0 {
+	// lastCodeSep is 0 both when no separator has run and when one ran at offset 0.
+	// The first opcode of a script is never inside a conditional, so a separator
+	// found there has been executed by the time a signature is checked.
+	if t.lastCodeSep > 0 || (len(script) > 0 && script[0].op.val == bscript.OpCODESEPARATOR) {
 		skip = t.lastCodeSep + 1 // +1 to skip the opcode separator itself
 	}
-	return t.scripts[t.scriptIdx][skip:]
+	return script[skip:]
 }
 
 // checkHashTypeEncoding returns whether the passed hashtype adheres to
